@@ -60,7 +60,7 @@ const c16Patch = "@@\nvar x expression\n@@\n-foo(x)\n+barbarbar(x, x)\n"
 
 func c16Scenarios(tier string) [][]string {
 	// a kind ending in "+hl" has a second hard link outside the processed tree
-	s := [][]string{{"m"}, {"m", "m2"}, {"m", "n", "m2"}, {"u", "m"}, {"m", "u", "m2"}, {"m+hl"}, {"m", "m2+hl"}}
+	s := [][]string{{"m"}, {"m", "m2"}, {"m", "n", "m2"}, {"u", "m"}, {"m", "u", "m2"}, {"m+hl"}, {"m", "m2+hl"}, {"m+own"}, {"m2+own", "m"}}
 	if tier == "thorough" {
 		s = append(s, []string{"m2"}, []string{"n", "m"}, []string{"m", "m2", "m"}, []string{"m", "m", "u"}, []string{"u", "u", "m"})
 	}
@@ -104,7 +104,7 @@ func c16Gen(tier string, emit func(any)) {
 	for _, n := range []int{255, 256, 257, 512} {
 		emit(&C16Case{Family: "many-failures", Position: n})
 	}
-	for _, l := range []string{"unparseable-source", "rewrite-error", "unparseable-result", "missing-path", "missing-path-abs", "missing-path-abs-slash", "missing-path-abs-dots", "missing-path-abs-dotdot", "missing-dir-rel-dots", "missing-patch", "patch-is-directory", "malformed-patch", "missing-patches-file", "patches-file-names-missing-patch", "patches-file-unterminated-names-missing-patch", "patches-file-unterminated-names-malformed-patch", "name-too-long-for-temporary", "printer-panic", "engine-panic-after-applied-change", "unparseable-source-under-import-guard", "patches-file-is-directory", "patches-file-first-line-too-long", "patches-file-later-line-too-long",
+	for _, l := range []string{"unparseable-source", "rewrite-error", "unparseable-result", "missing-path", "missing-path-abs", "missing-path-abs-slash", "missing-path-abs-dots", "missing-path-abs-dotdot", "missing-dir-rel-dots", "missing-patch", "patch-is-directory", "malformed-patch", "missing-patches-file", "patches-file-names-missing-patch", "patches-file-unterminated-names-missing-patch", "patches-file-unterminated-names-malformed-patch", "name-too-long-for-temporary", "printer-panic", "engine-panic-after-applied-change", "unparseable-source-under-import-guard", "unparseable-source-after-line-directive", "patches-file-is-directory", "patches-file-first-line-too-long", "patches-file-later-line-too-long",
 		"rewrite-error-import-first", "rewrite-error-import-middle", "rewrite-error-import-last",
 		"broken-change:unknown-type", "broken-change:missing-type", "broken-change:duplicate-metavariable", "broken-change:body-not-go",
 		"broken-change:two-declarations", "broken-change:two-declarations-after-import", "broken-change:two-declarations-after-two-imports",
@@ -180,14 +180,18 @@ func c16Setup(env *core.Env, kinds []string) (root string, names []string, orig 
 	tree := map[string]string{"p.patch": c16Patch}
 	orig = map[string]string{}
 	var linked []string
+	var owned []string
 	for i, k := range kinds {
-		base := strings.TrimSuffix(k, "+hl")
+		base := strings.TrimSuffix(strings.TrimSuffix(k, "+hl"), "+own")
 		n := fmt.Sprintf("f%d%s.go", i, base)
 		names = append(names, n)
 		orig[n] = c16Kinds[base]
 		tree["t/"+n] = c16Kinds[base]
-		if base != k {
+		if strings.HasSuffix(k, "+hl") {
 			linked = append(linked, n)
+		}
+		if strings.HasSuffix(k, "+own") { // owned by another user, in a directory without write bits (checks run as root)
+			owned = append(owned, n)
 		}
 	}
 	if err := drive.FreshDir(root); err != nil {
@@ -195,6 +199,14 @@ func c16Setup(env *core.Env, kinds []string) (root string, names []string, orig 
 	}
 	if err := drive.WriteTree(root, tree); err != nil {
 		panic(err)
+	}
+	for _, n := range owned {
+		if os.Geteuid() == 0 {
+			_ = os.Chown(filepath.Join(root, "t", n), 65534, 65534)
+		}
+	}
+	if len(owned) > 0 {
+		_ = os.Chmod(filepath.Join(root, "t"), 0o555)
 	}
 	os.MkdirAll(filepath.Join(root, "links"), 0o755)
 	for _, n := range linked {
@@ -392,7 +404,7 @@ func c16Run(env *core.Env, ci any) core.Outcome {
 	refActions := scratchActions(ref.log, root, false)
 	hasUnparsable := contains(c.Kinds, "u")
 	for _, k := range c.Kinds {
-		if strings.HasSuffix(k, "+hl") && c16Kinds[strings.TrimSuffix(k, "+hl")] == "" {
+		if b := strings.TrimSuffix(strings.TrimSuffix(k, "+hl"), "+own"); c16Kinds[b] == "" {
 			panic("harness: unknown kind " + k)
 		}
 	}
@@ -667,6 +679,10 @@ func c16Logical(env *core.Env, c *C16Case) core.Outcome {
 			switch c.Logical {
 			case "unparseable-source":
 				content = "package p\n\nfunc broken( {\n"
+				failing, perFile = name, true
+				wantInStderr = []string{name}
+			case "unparseable-source-after-line-directive": // positions in the parser's message name another file
+				content = "package p\n\n//line expr.y:40\nfunc broken( {\n"
 				failing, perFile = name, true
 				wantInStderr = []string{name}
 			case "unparseable-source-under-import-guard": // every change of the run names an import; the broken file does not mention it
